@@ -215,8 +215,18 @@ class Arrow:
         if isinstance(key, slice):
             if key.step == -1:
                 boxes = [box[::-1] for box in self.boxes[key]]
+                if key.start is None and key.stop is None:
+                    return self.upgrade(
+                        Arrow(self.cod, self.dom, boxes, _scan=False))
+                if not boxes:
+                    start = len(self) - 1 if key.start is None else key.start
+                    if start >= len(self) - 1:
+                        return Id(self.cod)
+                    if start < -len(self):
+                        return Id(self.dom)
+                    return Id(self.boxes[start].cod)
                 return self.upgrade(
-                    Arrow(self.cod, self.dom, boxes, _scan=False))
+                    Arrow(boxes[0].dom, boxes[-1].cod, boxes, _scan=False))
             if (key.step or 1) != 1:
                 raise IndexError
             boxes = self.boxes[key]
